@@ -12,6 +12,10 @@ PROP = dict(
          "functions per file visible to every body, top-level statements; let/var with and without annotation, tuple "
          "patterns, assignment, blocks, if/else, while, for, match on ints / tuples / enum variants as statement and as "
          "expression, lambdas with expression and block bodies, nested lambdas, calls of functions / lambdas / imported and "
+         "prefix-qualified functions with positional, named (`label = value`), mixed and reordered arguments and omitted defaults, "
+         "extension methods with labelled parameters called on variables and on fresh values, struct and variant constructors "
+         "with named arguments (also `.Variant(name = …)`), every argument value an arbitrary expression over the shadowed scope; "
+         "
          "prefix-qualified functions, struct construction and field access, enum variants written `.V` and `E.V`, array and "
          "tuple literals, indexing; every import form; variable names drawn from a pool of nine, one of which is also an "
          "imported function's name, so shadowing is the rule; non-ASCII string literals and comments, task blocks; the D12 / D45 / D60 probe programs are hard regression inputs). Per file: "
@@ -19,7 +23,8 @@ PROP = dict(
          "the hypotheses of the identifier-search theorem for the parsed file (decided by the proven-sound executable check "
          "wfB in the model; and the hover-search nesting check); spec checks at "
          "every byte offset: definition_at on a use = the generator's innermost visible declaration (file, range, text), "
-         "definition_at outside identifiers = nothing, type_at on every typed position = the generator's type. "
+         "definition_at outside identifiers = nothing, type_at on every typed position = the generator's type; agreement: at every "
+         "offset where the hover search lands on an identifier expression the go-to-definition search lands on the same node. "
          "distinct = distinct (file tree, search); non-trivial = the answer names at least one node",
     nontrivial=lambda req, imp: any(ch.isdigit() for ch in imp),
     trusted_base=COMMON_TB + [
